@@ -16,7 +16,7 @@ from cascade.low.core import DatasetId  # noqa: E402
 
 @st.composite
 def sim_cases(draw, max_tasks: int = 10, max_hosts: int = 4, max_workers: int = 3, bias: str = "none"):
-    fanout = bias == "replication" and draw(st.booleans())
+    fanout = draw(st.booleans()) if bias == "replication" else draw(st.integers(0, 3)) == 0
     if fanout:
         spec = draw(fanout_specs(max_tasks=max_tasks))
     else:
@@ -24,7 +24,7 @@ def sim_cases(draw, max_tasks: int = 10, max_hosts: int = 4, max_workers: int = 
     nh = draw(st.integers(2 if fanout else 1, max_hosts))
     cluster = []
     for _ in range(nh):
-        k = draw(st.integers(2 if fanout else 1, max(2, max_workers)))
+        k = draw(st.integers(2 if fanout else 1, max(2, max_workers) + (1 if fanout else 0)))
         cluster.append({"workers": k, "gpu": [draw(st.integers(0, 3)) == 0 for _ in range(k)]})
     if any(t["gpu"] for t in spec["tasks"]) and not any(any(h["gpu"]) for h in cluster):
         hi = draw(st.integers(0, nh - 1))
